@@ -73,6 +73,13 @@ class C09:
                         ctx.undec("R09.1", site, "row is not a (term, metric) pair")
                         continue
                     ts, fs = ctx.index.resolve_expr(m, row.elts[0]), ctx.index.resolve_expr(m, row.elts[1])
+                    if fs is not None and fs.kind == "func":
+                        # a metric function that moved to another module keeps the name it has on the reference tree
+                        from sa.sym import sym_term
+                        from sa.index import Sym
+                        cq = sym_term(fs)[1]
+                        if cq != fs.qual:
+                            fs = Sym(fs.kind, cq, fs.module, fs.node, fs.cls)
                     if ts is None or fs is None or not ts.qual.startswith(TERMS + ":") or not fs.qual.startswith(MET + ":"):
                         ctx.undec("R09.1", site, f"cannot resolve row {ast.unparse(row)}")
                         continue
